@@ -48,7 +48,8 @@ def scenario(rng, i):
                 if spec["cl"] == "larger":
                     spec["cl"] = "none"
             if rng.random() < 0.15:
-                spec["raise_at"] = rng.randrange(0, len(spec["chunks"]) + 1)
+                # (an application that used write() has nothing left to iterate over: it can only fail at the first step)
+                spec["raise_at"] = 0 if spec.get("write") else rng.randrange(0, len(spec["chunks"]) + 1)
             apps[r["k"]] = spec
     adj = {}
     if rng.random() < 0.4:
